@@ -5,6 +5,7 @@ import Bardic.Driver.StdlibRun
 import Bardic.Driver.CodecRun
 import Bardic.Driver.IncludeRun
 import Bardic.Driver.GraphRun
+import Bardic.Driver.TextRun
 import Bardic.Parser.Strip
 /-!
 # `driver`: line protocol.  One JSON case per input line, one JSON answer per output line.
@@ -118,6 +119,7 @@ def handle (line : String) : String :=
     | "compile" => (runCompile j).compress
     | "compile_out" => (runCompileOut j).compress
     | "pcomp" => (runPcomp j).compress
+    | "ptext" => (runPtext j).compress
     | "strip" =>
       let p := Bardic.Parser.stripStr (getStr j "line")
       (jObj [("id", (j.getObjVal? "id").toOption.getD .null), ("content", .str p.1), ("comment", .str p.2)]).compress
